@@ -1,5 +1,6 @@
 import GV.Model.Cell
 import GV.Spec.Json
+import GV.Spec.JsonWF
 import GV.Lemmas.Dec
 import GV.Lemmas.C14
 import GV.Expect.C14
@@ -12,28 +13,9 @@ import GV.Expect.C14
 namespace GV.Props.C14
 open GV GV.M
 
-/-- scalars within the ranges of their storage width -/
-def ScalarOK : W.JDoc → Prop
-  | .lit b => b < 3
-  | .i16 v => -(2 ^ 15 : Int) ≤ v ∧ v < 2 ^ 15
-  | .u16 n => n < 2 ^ 16
-  | .i32 v => -(2 ^ 31 : Int) ≤ v ∧ v < 2 ^ 31
-  | .u32 n => n < 2 ^ 32
-  | .i64 v => -(2 ^ 63 : Int) ≤ v ∧ v < 2 ^ 63
-  | .u64 n => n < 2 ^ 64
-  | .dbl bits => bits < 2 ^ 64
-  | .str b => b.length < 2 ^ 32
-  | .odate y m d => y ≤ 9999 ∧ m ≤ 12 ∧ d ≤ 31
-  | .otime neg h mi s micro => h ≤ 838 ∧ mi ≤ 59 ∧ s ≤ 59 ∧ micro ≤ 999999 ∧ (neg = true → h + mi + s + micro ≠ 0)
-  | .odatetime y mo d h mi s micro => y ≤ 9999 ∧ mo ≤ 12 ∧ d ≤ 31 ∧ h ≤ 23 ∧ mi ≤ 59 ∧ s ≤ 59 ∧ micro ≤ 999999
-  | .odecimal p s _ i f => 1 ≤ p ∧ p ≤ 65 ∧ s ≤ 30 ∧ s ≤ p ∧ i.length = p - s ∧ f.length = s ∧ (∀ d ∈ i, d < 10) ∧ (∀ d ∈ f, d < 10)
-  | .obj _ _ => False
-  | .arr _ _ => False
-
-def isScalar : W.JDoc → Bool
-  | .obj _ _ => false
-  | .arr _ _ => false
-  | _ => true
+/- `ScalarOK`, `isScalar`, `fitsFormat`, `WFDoc`, `WFVals`, `WFKVs` (which documents are well-formed) are Spec-side
+   definitions: GV/Spec/JsonWF.lean (namespace GV.W); the names stay usable here. -/
+export GV.W (ScalarOK isScalar fitsFormat WFDoc WFVals WFKVs)
 
 /-- `ScalarOK` is the lemma file's `C14.SOK` (same clauses) -/
 theorem scalarOK_iff (d : W.JDoc) : ScalarOK d ↔ C14.SOK d := by
@@ -50,24 +32,6 @@ theorem C14_scalars (E : Ext) (d : W.JDoc) (hs : isScalar d = true) (hok : Scala
     printJSONData E (W.jsonb d) = .ok (W.render E.fmtFloat64E true d) := by
   have _ := hs   -- implied by `ScalarOK` (containers are excluded there)
   exact C14.scalar_doc E d ((scalarOK_iff d).mp hok)
-
-/-- well-formed documents: scalars in range; every container's count, size and offsets fit its storage format
-    (2-byte fields for small, 4-byte for large), keys shorter than 64KB -/
-def fitsFormat (large : Bool) (n : Nat) (body : Bytes) : Prop :=
-  n < 2 ^ (8 * W.ow large) ∧ body.length < 2 ^ (8 * W.ow large)
-
-mutual
-def WFDoc : W.JDoc → Prop
-  | .obj large kvs => WFKVs kvs ∧ fitsFormat large kvs.length (W.encVal (.obj large kvs)).2
-  | .arr large vs => WFVals vs ∧ fitsFormat large vs.length (W.encVal (.arr large vs)).2
-  | d => ScalarOK d
-def WFVals : List W.JDoc → Prop
-  | [] => True
-  | d :: ds => WFDoc d ∧ WFVals ds
-def WFKVs : List (Bytes × W.JDoc) → Prop
-  | [] => True
-  | (k, d) :: rest => k.length < 65536 ∧ WFDoc d ∧ WFKVs rest
-end
 
 theorem wfVals_mem (vs : List W.JDoc) (h : WFVals vs) : ∀ v ∈ vs, WFDoc v := by
   induction vs with
@@ -129,6 +93,17 @@ theorem C14_cell (E : Ext) (d : W.JDoc) (hw : WFDoc d) (hl : (W.jsonb d).length 
     cellBytes E (Bytes.ofLE 4 (W.jsonb d).length ++ W.jsonb d ++ rest) 0 245 4 u
       = .ok (W.render E.fmtFloat64E true d, 4 + (W.jsonb d).length) :=
   C14.cell_json E (W.jsonb d) rest _ u hl (C14_doc E d hw)
+
+/-- the same for every width of the length prefix (metadata 1 … 4) and wherever the cell sits in the row image: the length
+    rule skips exactly the cell, the decoder delivers the document's text (DOUBLE scalars included, through the runtime's
+    formatter) and consumes exactly the cell -/
+theorem C14_cell_at (E : Ext) (d : W.JDoc) (hw : WFDoc d) (md : Nat) (h1 : 1 ≤ md) (h4 : md ≤ 4)
+    (hl : (W.jsonb d).length < 256 ^ md) (u : Bool) (pre rest : Bytes) :
+    cellLength (pre ++ (Bytes.ofLE md (W.jsonb d).length ++ W.jsonb d ++ rest)) pre.length 245 md
+      = .ok (md + (W.jsonb d).length) ∧
+    cellBytes E (pre ++ (Bytes.ofLE md (W.jsonb d).length ++ W.jsonb d ++ rest)) pre.length 245 md u
+      = .ok (W.render E.fmtFloat64E true d, md + (W.jsonb d).length) :=
+  C14.cell_json_at E pre (W.jsonb d) rest _ md u h1 h4 hl (C14_doc E d hw)
 
 /-! non-vacuity -/
 example : WFDoc (.obj false [([97], .i16 (-1)), ([98, 99], .arr false [.lit 0, .str [97, 98], .u32 70000])]) := by
